@@ -33,6 +33,9 @@ inline std::vector<const DomInfo *> select_domains(const std::string &sel) {
   } else if (sel == "inter") {
     for (auto n : {"int", "sdbm", "soct", "term_int", "bool_int", "dbm", "term_dbm", "ric", "disint", "num"})
       if (find_domain(n)) out.push_back(find_domain(n));
+  } else if (sel == "arrays") {
+    for (auto &d : roster())
+      if (d.arrays) out.push_back(&d);
   } else if (sel == "backward") {
     for (auto &d : roster())
       if (d.backward) out.push_back(&d);
@@ -237,6 +240,7 @@ inline std::string stmt_tag(const Stmt &s) {
   case S_ARR_STORE: return "array-store";
   case S_ARR_LOAD: return "array-load";
   case S_ARR_ASSIGN: return "array-assign";
+  case S_ARR_STORE_RANGE: return "array-store-range";
   case S_CALL: return "callsite";
   case S_REGION_INIT: return "region-init";
   case S_MAKE_REF: return "make-ref";
